@@ -11,7 +11,9 @@ from ..par import run_tasks
 from ..report import CONCRETE, INCONCLUSIVE, Report, describe_function
 from ..sym.runner import discharge
 from ..sym.scalar import Ctx, SReal, approx
-from ..sym.tensor import Session
+import torch.nn.functional as F
+
+from ..sym.tensor import Session, STensor
 from . import funcops as fo
 from .c01 import common_meta
 
@@ -215,6 +217,153 @@ def task_residual_fixed(kind: str) -> List[Dict[str, Any]]:
     return discharge("C05", f"residual-fixed[{kind}]", h_residual_fixed(kind), replay_residual_fixed, 30, base_info={"residual": kind})
 
 
+# ------------------------------------------------------------------------------------------ history independence
+# The same op, first called with "transposed" sizes (the same SET of scale factors in another order), then with the sizes under test:
+# the second call's forward factor and gradient factors must be what a fresh process gives.  Nothing here assumes a formula.
+HIST_OPS = {
+    "linear": "U.linear(x[n,a], w[b,a]) then U.linear(x[n,b], w[a,b])",
+    "matmul": "U.matmul(l[n,a], r[a,b]) then U.matmul(l[b,a], r[a,n])",
+    "add": "U.add(p[a,1], q[a,b]) then U.add(p[a,b], q[1,b])",
+}
+HIST_CONS = {"linear": ["to_output_scale", "to_grad_input_scale", "gmean", None], "matmul": ["to_output_scale", "to_left_grad_scale", "to_right_grad_scale", "gmean"],
+             "add": ["to_output_scale", "gmean", None]}
+
+
+def _hist_calls(op: str, mkt: Any, dims: Tuple[Any, Any, Any], which: int) -> Tuple[Any, Any, Dict[str, Any]]:
+    """(library call, reference call, differentiable leaves) for the first (which=0) or second (which=1) call of the pair"""
+    import unit_scaling.functional as U
+    n, a, b = dims
+    tag = "first" if which == 0 else "second"
+    if op == "linear":
+        fi, fo_ = (a, b) if which == 0 else (b, a)
+        x, w = mkt(f"x_{tag}", (n, fi)), mkt(f"w_{tag}", (fo_, fi))
+        return (lambda k: U.linear(x, w, None, **_kw(k))), (lambda: F.linear(x, w, None)), {"x": x, "w": w}
+    if op == "matmul":
+        sl, sr = ((n, a), (a, b)) if which == 0 else ((b, a), (a, n))
+        l, r = mkt(f"l_{tag}", sl), mkt(f"r_{tag}", sr)
+        return (lambda k: U.matmul(l, r, **_kw(k))), (lambda: torch.matmul(l, r)), {"l": l, "r": r}
+    sp, sq = ((a, 1), (a, b)) if which == 0 else ((a, b), (1, b))
+    p_, q_ = mkt(f"p_{tag}", sp), mkt(f"q_{tag}", sq)
+    return (lambda k: U.add(p_, q_, **_kw(k))), (lambda: torch.add(p_, q_)), {"p": p_, "q": q_}
+
+
+def _kw(k: Any) -> Dict[str, Any]:
+    return {} if k is fo.DEFAULT else {"constraint": k}
+
+
+def _factors(c: Ctx, lib: Any, ref: Any, leaves: Dict[str, Any], kappa: Any, label: str) -> Dict[str, Any]:
+    """forward factor and per-leaf gradient factors of one call (fresh z3 symbols tied to the run by assumptions)"""
+    out: Dict[str, Any] = {}
+    y, yr = lib(kappa), ref()
+    k, mism, pairs = fo._ratio(c, f"{label} output", y.lc, yr.lc)
+    if mism:
+        raise fo.HarnessError(mism)
+    c.assumes.append(fo._eq_claim(pairs))
+    out["fwd"] = k
+    G = STensor.leaf(f"G_{label}", y.shape, y.dtype)
+    for t in leaves.values():
+        t.grad = None
+    y.backward(G)
+    got = {nm: t.grad for nm, t in leaves.items()}
+    for t in leaves.values():
+        t.grad = None
+    yr.backward(G)
+    for nm, t in leaves.items():
+        if got[nm] is None or t.grad is None:
+            continue
+        kg, mism, pairs = fo._ratio(c, f"{label} grad[{nm}]", got[nm], t.grad)
+        if mism:
+            raise fo.HarnessError(mism)
+        c.assumes.append(fo._eq_claim(pairs))
+        out[f"grad[{nm}]"] = kg
+        t.grad = None
+    return out
+
+
+def h_history(op: str, kappa: Any):
+    def h(c: Ctx) -> None:
+        n, a, b = c.dim("n", 2, 2 ** 20, sample=3), c.dim("a", 2, 2 ** 20, sample=5), c.dim("b", 2, 2 ** 20, sample=7)
+        info = {"op": op, "constraint": kappa if kappa is not fo.DEFAULT else "<default>", "history": True}
+
+        def mkt(name: str, shape: Tuple[Any, ...]) -> STensor:
+            return STensor.leaf(name, shape, torch.float32, requires_grad=True)
+
+        with Session():  # the library state of this session sees the first call, then the second
+            lib0, ref0, lv0 = _hist_calls(op, mkt, (n, a, b), 0)
+            _factors(c, lib0, ref0, lv0, kappa, "first")
+            lib1, ref1, lv1 = _hist_calls(op, mkt, (n, a, b), 1)
+            after = _factors(c, lib1, ref1, lv1, kappa, "second-after-first")
+        with Session():  # library state reset (Session restores module-level containers and clears lru caches): the second call alone
+            lib1, ref1, lv1 = _hist_calls(op, lambda nm, sh: mkt(nm + "'", sh), (n, a, b), 1)
+            alone = _factors(c, lib1, ref1, lv1, kappa, "second-alone")
+        for key in alone:
+            c.oblige(f"{key} factor of the second call does not depend on the first call", after[key] == alone[key], info={**info, "claim": key},
+                     tol=approx(after[key], alone[key]))
+        c.oblige("control: second call has the first call's factor (must be sat)", after["fwd"] == alone["fwd"] * 2, kind="control")
+
+    return h
+
+
+_HIST_SCRIPT = r'''
+import json, sys, torch
+import torch.nn.functional as F
+import unit_scaling.functional as U
+op, kappa, n, a, b, both = json.loads(sys.argv[1])
+kw = {} if kappa == "<default>" else {"constraint": kappa}
+def call(which):
+    g = torch.Generator().manual_seed(7 + which)
+    mk = lambda *s: torch.randn(*s, generator=g, dtype=torch.float64, requires_grad=True)
+    if op == "linear":
+        fi, fo = (a, b) if which == 0 else (b, a)
+        x, w = mk(n, fi), mk(fo, fi); leaves = {"x": x, "w": w}
+        y, yr = U.linear(x, w, None, **kw), F.linear(x, w, None)
+    elif op == "matmul":
+        sl, sr = ((n, a), (a, b)) if which == 0 else ((b, a), (a, n))
+        l, r = mk(*sl), mk(*sr); leaves = {"l": l, "r": r}
+        y, yr = U.matmul(l, r, **kw), torch.matmul(l, r)
+    else:
+        sp, sq = ((a, 1), (a, b)) if which == 0 else ((a, b), (1, b))
+        p, q = mk(*sp), mk(*sq); leaves = {"p": p, "q": q}
+        y, yr = U.add(p, q, **kw), torch.add(p, q)
+    G = torch.randn(y.shape, generator=g, dtype=torch.float64)
+    res = {"fwd": float((y.detach() * yr.detach()).sum() / (yr.detach() ** 2).sum())}
+    gl = torch.autograd.grad(y, list(leaves.values()), G)
+    gr = torch.autograd.grad(yr, list(leaves.values()), G)
+    for nm, u, v in zip(leaves, gl, gr):
+        res["grad[%s]" % nm] = float((u * v).sum() / (v ** 2).sum())
+    return res
+if both:
+    call(0)
+print(json.dumps(call(1)))
+'''
+
+
+def replay_history(obname: str, model: Dict[str, Any], info: Any) -> Tuple[bool, str]:
+    """two clean processes: the second call alone, and after the first call; least-squares factors must agree to 1e-9"""
+    import json
+    import os
+    import subprocess
+    import sys
+    n, a, b = (min(int(model.get(k, d)), 48) for k, d in (("n", 3), ("a", 5), ("b", 7)))
+    res = []
+    for both in (False, True):
+        arg = json.dumps([info["op"], info["constraint"], n, a, b, both])
+        p = subprocess.run([sys.executable, "-c", _HIST_SCRIPT, arg], capture_output=True, text=True, timeout=600, env=dict(os.environ))
+        if p.returncode != 0:
+            return both, f"{info['op']} history replay {'(after first call) ' if both else ''}raises: {p.stderr.strip().splitlines()[-1] if p.stderr.strip() else p.returncode}"
+        res.append(json.loads(p.stdout.strip().splitlines()[-1]))
+    alone, after = res
+    bad = [f"{k}: {after[k]!r} after the first call, {alone[k]!r} alone" for k in alone if abs(after[k] - alone[k]) > 1e-9 * max(abs(alone[k]), 1e-300)]
+    return bool(bad), f"{HIST_OPS[info['op']]} with constraint {info['constraint']!r} at n={n}, a={a}, b={b}: " + "; ".join(bad or ["same factors"])
+
+
+def task_history(op: str, kappa: Any, timeout: float) -> List[Dict[str, Any]]:
+    torch.set_num_threads(1)
+    kn = kappa if kappa is not fo.DEFAULT else "<default>"
+    return discharge("C05", f"history[{op},{kn}]", h_history(op, kappa), replay_history, timeout,
+                     base_info={"op": op, "constraint": kn, "history": True}, skip_definedness=True)
+
+
 def run(rep: Report, only: str = "") -> None:
     import unit_scaling.constraints as uc
     thorough = rep.tier == "thorough"
@@ -228,12 +377,13 @@ def run(rep: Report, only: str = "") -> None:
     tasks.append((task_unknown, ()))
     tasks.append((task_names, ()))
     tasks += [(task_residual_fixed, ("split-add",)), (task_residual_fixed, ("apply",))]
+    tasks += [(task_history, (op, k, timeout)) for op in HIST_OPS for k in HIST_CONS[op]]
     ops = list(fo.CONSTRAINTS) + ["silu_glu", "scaled_dot_product_attention"]
     for op in ops:
         for cfg in fo.configs(op, rep.tier):
             tasks.append((fo.run_config, ("C05", cfg, ["C05"], timeout)))
     if only:
-        tasks = [t for t in tasks if only in repr(t[1])]
+        tasks = [t for t in tasks if only in repr(t[1]) or only in t[0].__name__]
     tasks.sort(key=lambda t: -(t[1][1] if t[0] is task_rule else 0))
     rep.extend(run_tasks(tasks))
     rep.functions = fo.encoded_functions() + [describe_function(getattr(uc, n)) for n in
@@ -254,6 +404,8 @@ def replay(data: Dict[str, Any]) -> Tuple[bool, str]:
         v = [r for r in recs if r.get("type") == "violation" and r["key"].endswith("/" + data["name"])]
         return bool(v), str(v or "rejected")
     info = data.get("info") or {}
+    if info.get("history"):
+        return replay_history(data["obligation"], data["model"], info)
     if "residual" in info:
         return replay_residual_fixed(data["obligation"], data["model"], info)
     if "rule" in info:
